@@ -149,6 +149,7 @@ func TestVerifC20Pool(t *testing.T) {
 		for rd := 0; rd < rounds; rd++ {
 			rnd := l1.Latest() + 1
 			// ---- feed the pool
+			tFeed := time.Now()
 			nrem, nrej := 0, 0
 			ng := 4 + r.Intn(10)
 			for g := 0; g < ng; g++ {
@@ -206,12 +207,15 @@ func TestVerifC20Pool(t *testing.T) {
 				}
 			}
 			// ---- the pool's proposal
+			stats["ms_feed"] += int(time.Since(tFeed).Milliseconds())
 			mode := "assembled"
 			if behind >= 1 {
 				mode = "pool_behind"
 			}
 			deadline := time.Now().Add(500 * time.Millisecond)
+			tAsm := time.Now()
 			ub, err := pool.AssembleBlock(rnd, deadline)
+			stats["ms_assemble"] += int(time.Since(tAsm).Milliseconds())
 			if err != nil || ub == nil {
 				t.Logf("universe %d round %d: AssembleBlock: %v", u, rnd, err)
 				stats["assemble_error"]++
@@ -227,6 +231,7 @@ func TestVerifC20Pool(t *testing.T) {
 			stats["txns_in_blocks"] += len(blk.Payset)
 
 			// ---- validation elsewhere (cold cache, real signatures), on the pool's ledger, without validation
+			tVal := time.Now()
 			vb2, verr := l2.Validate(ctx, blk, backlog)
 			valOK := verr == nil
 			digests := []interface{}{}
@@ -319,19 +324,24 @@ func TestVerifC20Pool(t *testing.T) {
 				break
 			}
 			// ---- commit; sometimes the pool hears about it late (empty-block fall-back next time)
+			stats["ms_validate_mutants"] += int(time.Since(tVal).Milliseconds())
+			tCommit := time.Now()
 			require.NoError(t, l1.AddValidatedBlock(*vb1, agreement.Certificate{}))
 			require.NoError(t, l2.AddValidatedBlock(*vb2, agreement.Certificate{}))
 			l1.WaitForCommit(rnd)
 			l2.WaitForCommit(rnd)
+			stats["ms_commit"] += int(time.Since(tCommit).Milliseconds())
 			missed = append(missed, *vb1)
 			behind++
 			if behind < 2 && r.Intn(5) == 0 && rd+2 < rounds {
 				stats["late_notifications"]++
 				continue
 			}
+			tNote := time.Now()
 			for _, m := range missed {
 				pool.OnNewBlock(m.Block(), m.Delta())
 			}
+			stats["ms_on_new_block"] += int(time.Since(tNote).Milliseconds())
 			missed, behind = nil, 0
 		}
 		pool.Shutdown()
